@@ -318,6 +318,63 @@ func (x *Exec) atomicCall(fr *Frame, st *State, key string, args []V, rt types.T
 	x.trust("sync/atomic typed values are modelled with sequential semantics (a plain field read/write); interleavings with other goroutines are not modelled")
 	cur := x.loadPlace(st, fpl)
 	isBool := typ == "Bool"
+	// rely/guarantee mode (DESIGN.md 3.5 "Locks and atomics"): other goroutines may change
+	// the value between any two of our operations, but only as `rely` allows; every write
+	// of ours must satisfy `guarantee`.
+	if spec := x.atomicSpec(pl); spec != nil && !isBool {
+		evalRG := func(c *Clause, o, n string) string {
+			env := &Env{x: x, pkg: x.prog.pkgOfFunc(x.topFrame.fn), names: map[string]V{"old": mathV(o), "new": mathV(n)}, cur: st, old: st}
+			return env.evalBool(c.E)
+		}
+		relyHavoc := func() string {
+			nv := x.s.declare("atomic", x.s.sortOf(ft))
+			x.assume("true", x.s.typeInv(ft, nv))
+			x.assume(st.guard, evalRG(spec.Rely, cur.S, nv))
+			x.storePlace(st, fpl, nv)
+			return nv
+		}
+		guar := func(o, n, what string) {
+			f := evalRG(spec.Guarantee, o, n)
+			name := fmt.Sprintf("%s#guarantee.%s.%s@%s", funcKey(x.stack[0]), spec.Field, what, x.prog.posShort(pos, fr.fn))
+			if spec.Guarantee.Tag != "" {
+				name = fmt.Sprintf("%s#%s.%s@%s", funcKey(x.stack[0]), spec.Guarantee.Tag, what, x.prog.posShort(pos, fr.fn))
+			}
+			x.addObl(&Obligation{Name: name, Kind: "assert", Tag: spec.Guarantee.Tag, Func: funcKey(x.stack[0]), Pos: x.prog.pos(pos), Guard: st.guard, Formula: f, Src: "guarantee " + spec.Guarantee.Src})
+			x.assume(st.guard, f)
+		}
+		x.trust("atomic field " + spec.Field + ": rely/guarantee reasoning; interference by other goroutines is any sequence of steps satisfying the rely, which is justified by the guarantee obligations at every writer (writer inventory)")
+		switch meth {
+		case "Load":
+			return V{T: rt, S: relyHavoc()}, true
+		case "Store":
+			c2 := relyHavoc()
+			guar(c2, args[1].S, "Store")
+			x.storePlace(st, fpl, args[1].S)
+			return V{T: rt}, true
+		case "Add":
+			c2 := relyHavoc()
+			nv := x.binop(fr, st, token.ADD, V{T: ft, S: c2}, V{T: ft, S: args[1].S}, ft, pos)
+			guar(c2, nv.S, "Add")
+			x.storePlace(st, fpl, nv.S)
+			return V{T: rt, S: nv.S}, true
+		case "CompareAndSwap":
+			c2 := relyHavoc()
+			ok := x.s.declare("cas_ok", "Bool")
+			x.assume(st.guard, implies(ok, "(= "+c2+" "+args[1].S+")"))
+			// the write happens only on success
+			g := st.guard
+			st.guard = x.define("g", "Bool", and(g, ok))
+			guar(args[1].S, args[2].S, "CompareAndSwap")
+			st.guard = g
+			x.storePlace(st, fpl, ite(ok, args[2].S, c2))
+			return V{T: rt, S: ok}, true
+		case "Swap":
+			c2 := relyHavoc()
+			guar(c2, args[1].S, "Swap")
+			x.storePlace(st, fpl, args[1].S)
+			return V{T: rt, S: c2}, true
+		}
+	}
 	boolOf := func(v V) V { return V{T: types.Typ[types.Bool], S: "(not (= " + v.S + " 0))"} }
 	toStored := func(v V) string {
 		if isBool {
@@ -353,6 +410,26 @@ func (x *Exec) atomicCall(fr *Frame, st *State, key string, args []V, rt types.T
 		return V{T: rt, S: eq}, true
 	}
 	return V{}, false
+}
+
+// atomicSpec finds the rely/guarantee declaration for the atomic field a place denotes.
+func (x *Exec) atomicSpec(pl *Place) *AtomicSpec {
+	if x.topFrame == nil || x.topFrame.contract == nil || len(x.topFrame.contract.Atomics) == 0 || len(pl.Path) == 0 {
+		return nil
+	}
+	last := pl.Path[len(pl.Path)-1]
+	if last.Field < 0 {
+		return nil
+	}
+	nt, ok := last.From.(*types.Named)
+	if !ok {
+		return nil
+	}
+	st, ok := nt.Underlying().(*types.Struct)
+	if !ok {
+		return nil
+	}
+	return x.topFrame.contract.Atomics[nt.Obj().Name()+"."+st.Field(last.Field).Name()]
 }
 
 // errorOperands finds the error-typed operands of a variadic ...any argument
